@@ -123,6 +123,28 @@ Proof. exact build_fallback_refuted. Qed.
 Theorem C19_oracle_roundtrip_file_model : forall c : config, flat_roundtrip_b c (from_flat (flat_json c)) = true.
 Proof. exact oracle_flat_roundtrip_model. Qed.
 
+(* ---- init -o <standalone file> ---- *)
+(* invalid settings - whatever the shape of the missing project path, the model only asks
+   whether the path names something that exists - are refused with every file left alone *)
+Theorem C19_init_file_reject_first : forall (f : fs) (il : iflags) (force : bool),
+  init_invalid f il = true ->
+  run_init_file f il force = RFail f \/ exists e, run_init_file f il force = RReject e f.
+Proof. exact init_file_reject_first. Qed.
+
+Theorem C19_init_file_no_overwrite : forall (f : fs) (il : iflags),
+  fs_exists f (or_else (i_output il) "tauri.conf.json") = true -> run_init_file f il false = RFail f.
+Proof. exact init_file_no_overwrite. Qed.
+
+(* a valid init creates the file with exactly the settings given, and they read back *)
+Theorem C19_init_file_document : forall (f : fs) (il : iflags) (force : bool),
+  init_invalid f il = false ->
+  fs_exists f (or_else (i_output il) "tauri.conf.json") && negb force = false ->
+  norm (init_generated il) <> norm (or_else (i_output il) "tauri.conf.json") ->
+  fs_get (result_fs (run_init_file f il force)) (or_else (i_output il) "tauri.conf.json")
+    = Some (NDoc (Some (flat_json (init_config il))))
+  /\ from_flat (flat_json (init_config il)) = Some (init_config il).
+Proof. exact init_file_document. Qed.
+
 (* ---- non-vacuity: concrete non-trivial inputs meet the premises *)
 Definition ex_doc : json :=
   JObj [("productName", JStr "My App"); ("big", JNum "18446744073709551615");
@@ -273,6 +295,16 @@ Example C19_ex_build :
   /\ exists f', run_build f = RRun (spec_eff_build f) f'.
 Proof. vm_compute. repeat split; try reflexivity. eexists. reflexivity. Qed.
 
+(* a project path that leads through a regular file names nothing: refused, nothing created *)
+Example C19_ex_init_file_through_file :
+  let f := [("src-tauri", NProj); ("notes.txt", NDoc None)] in
+  let il := {| i_project := Some "notes.txt/src"; i_generated := Some "./gen"; i_output := Some "./typegen.json";
+               i_validation := Some "zod"; i_verbose := false; i_visualize := false |} in
+  init_invalid f il = true /\ run_init_file f il false = RReject (NoProject "notes.txt/src") f
+  /\ run_init f (Build_iflags (Some "notes.txt/src") None (Some "./tauri.conf.json") None false false)
+     = RReject (NoProject "notes.txt/src") f.
+Proof. vm_compute. repeat split; reflexivity. Qed.
+
 Print Assumptions C19_preserve.
 Print Assumptions C19_save_refused.
 Print Assumptions C19_roundtrip.
@@ -289,3 +321,6 @@ Print Assumptions C19_generate_c_unreadable.
 Print Assumptions C19_precedence_build.
 Print Assumptions C19_build_fallback_refuted.
 Print Assumptions C19_oracle_roundtrip_file_model.
+Print Assumptions C19_init_file_reject_first.
+Print Assumptions C19_init_file_no_overwrite.
+Print Assumptions C19_init_file_document.
